@@ -117,7 +117,7 @@ def describe(tier):
             "segment mean = the `log2` column of the reported segment",
             "a chromosome arm boundary is a single 5 Mb gap placed mid-chromosome with >= 100 bins on each side; all other gaps are < 2 kb "
             "(below the package's 100 kb arm-splitting gap), so stepped chromosomes are one arm",
-            "flat profiles are at log2 0; chromosomes are named chr1..chr3 (autosomes); default do_segmentation arguments, one process",
+            "flat profiles are at log2 0; chromosomes are named chr1..chr3 (autosomes); default do_segmentation arguments; one process, and for a slice of the haar cases real pools of 2 and 4 (thorough: 16) processes",
         ],
     }
 
@@ -195,6 +195,14 @@ def cases(tier):
         for sd in p["sds"]:
             for method in METHODS:
                 yield {"check": "flat", "method": method, "bins": bins, "gap_at": gaps, "sd": sd}
+    # the same answers with a worker pool (haar fans out per arm; fewer arms than workers, more arms than workers)
+    for procs in (2, 4, 16) if t else (2, 4):
+        for n in p["flat_bins"]:
+            yield {"check": "flat", "method": "haar", "bins": [n], "gap_at": [None], "sd": p["sds"][0], "processes": procs}
+        yield {"check": "flat", "method": "haar", "bins": [250, 100, 600], "gap_at": [None, None, 200], "sd": p["sds"][0], "processes": procs}
+        for kind in METHOD_KINDS["haar"]:
+            yield {"check": "step", "method": "haar", "kind": kind, "left": p["sizes"][0], "right": p["sizes"][-1], "sd": p["sds"][0], "processes": procs}
+            yield {"check": "multi", "method": "haar", "kinds": [kind, kind], "pattern": 0, "sd": p["multi_sds"][0], "processes": procs}
     # one stepped chromosome, smallest first
     pairs = sorted(itertools.product(p["sizes"], repeat=2), key=lambda lr: (lr[0] + lr[1], lr))
     for left, right in pairs:
@@ -244,7 +252,7 @@ def run(case, ctx):
     for arr in starts:
         for wpat, layout in p["combos"]:
             chroms = [dict(s, arr=next_arrangement(names, arr, j)) for j, s in enumerate(specs)]
-            run_one(ctx, method, chroms, sd, wpat, layout, {"arrangement": arr, "weights": wpat, "layout": layout})
+            run_one(ctx, method, chroms, sd, wpat, layout, {"arrangement": arr, "weights": wpat, "layout": layout}, case.get("processes", 1))
     ctx.sample(
         kind + "/" + method,
         {"case": case, "chromosomes": [{k: v for k, v in s.items()} for s in specs], "arrangements": starts, "weights_layouts": p["combos"]},
@@ -252,11 +260,11 @@ def run(case, ctx):
 
 
 # --------------------------------------------------------------------------------------------
-def run_one(ctx, method, chroms, sd, wpat, layout, sub):
+def run_one(ctx, method, chroms, sd, wpat, layout, sub, procs=1):
     cnarr = build_profile(chroms, sd, wpat, layout)
     stepped = any(c["l0"] != c["l1"] for c in chroms)
     ctx.state(
-        (method, [(c["left"], c["right"], c["l0"], c["l1"], c["gap_at"], c["arr"]) for c in chroms], sd, wpat, layout),
+        (method, [(c["left"], c["right"], c["l0"], c["l1"], c["gap_at"], c["arr"]) for c in chroms], sd, wpat, layout, procs),
         nontrivial=stepped,
     )
     # strata: what the alphabet reaches
@@ -274,7 +282,9 @@ def run_one(ctx, method, chroms, sd, wpat, layout, sub):
         else:
             ctx.stratum("%s/flat-%s" % (method, "two-arms" if c["gap_at"] else "one-arm"))
 
-    seg = ctx.call(segmentation.do_segmentation, cnarr, method)
+    seg = ctx.call(segmentation.do_segmentation, cnarr, method, processes=procs)
+    if procs != 1:
+        ctx.stratum("worker pool of %d processes" % procs)
     feature = "flat" if not stepped else "step"
     if isinstance(seg, Exc):
         ctx.violation(
